@@ -146,4 +146,70 @@ theorem transaction_abort_future (h b k : List (Op α)) (hb : Balanced b) :
   · rw [naive_run_out_length]; simp
   · rw [hc, hc']
 
+/-- A balanced body's `pop`/`peek` results do not depend on the saved copies that were there before it. -/
+theorem naive_balanced_out (b : List (Op α)) (hb : Balanced b) (cur : List α) (sv sv' : List (List α)) :
+    (Naive.run ⟨cur, sv⟩ b).2 = (Naive.run ⟨cur, sv'⟩ b).2 := by
+  induction hb generalizing cur sv sv' with
+  | nil => rfl
+  | push x _ ih => simp only [Naive.run, Naive.step]; rw [ih _ sv sv']
+  | pop _ ih => simp only [Naive.run, Naive.step]; rw [ih _ sv sv']
+  | peek _ ih => simp only [Naive.run, Naive.step]; rw [ih _ sv sv']
+  | @abort b c hb _ ihb ihc =>
+    have e : (.snapshot :: b ++ .restore :: c : List (Op α)) = (.snapshot :: b) ++ (.restore :: c) := rfl
+    rw [e, naive_run_append, naive_run_append]
+    have h1 := naive_balanced_saved b hb { cur := cur, saved := cur :: sv }
+    have h2 := naive_balanced_saved b hb { cur := cur, saved := cur :: sv' }
+    have h3 := ihb cur (cur :: sv) (cur :: sv')
+    simp only [Naive.run, Naive.step]
+    rw [h1, h2, h3, ihc _ sv sv']
+  | @commit b c hb _ ihb ihc =>
+    have e : (.snapshot :: b ++ .clearSnapshot :: c : List (Op α)) = (.snapshot :: b) ++ (.clearSnapshot :: c) := rfl
+    rw [e, naive_run_append, naive_run_append]
+    have h1 := naive_balanced_saved b hb { cur := cur, saved := cur :: sv }
+    have h2 := naive_balanced_saved b hb { cur := cur, saved := cur :: sv' }
+    have h3 := ihb cur (cur :: sv) (cur :: sv')
+    have h4 := naive_balanced_cur b hb cur (cur :: sv) (cur :: sv')
+    simp only [Naive.run, Naive.step]
+    rw [h1, h2, h3, h4]; exact congrArg _ (congrArg _ (ihc _ _ _))
+
+/-- On the specification a committed transaction ends in the state its body alone ends in. -/
+theorem naive_commit_state (n : Naive α) (b : List (Op α)) (hb : Balanced b) :
+    (Naive.run n (.snapshot :: b ++ [.clearSnapshot])).1 = (Naive.run n b).1 := by
+  have e : (.snapshot :: b ++ [.clearSnapshot] : List (Op α)) = (.snapshot :: b) ++ [.clearSnapshot] := rfl
+  rw [e, naive_run_append]
+  have h1 := naive_balanced_saved b hb { cur := n.cur, saved := n.cur :: n.saved }
+  have h2 := naive_balanced_saved b hb n
+  have h3 := naive_balanced_cur b hb n.cur (n.cur :: n.saved) n.saved
+  simp only [Naive.run, Naive.step]
+  rw [h1]
+  show Naive.mk _ _ = _
+  rw [h3]
+  cases hn : Naive.run n b with
+  | mk m os => cases m; simp_all
+
+/-- **A committed transaction is its body, for every future.** For every prefix history `h`,
+balanced body `b` and arbitrary continuation `k`: `h; snapshot; b; clear_snapshot; k` does not panic,
+and the `pop`/`peek` results of `b` and of `k` and the final contents are those of `h; b; k`. -/
+theorem transaction_commit_future (h b k : List (Op α)) (hb : Balanced b) :
+    ∃ s s' oh ob ok, run Stk.new (h ++ b ++ k) = some (s, oh ++ ob ++ ok) ∧
+      run Stk.new (h ++ (.snapshot :: b ++ [.clearSnapshot]) ++ k)
+        = some (s', oh ++ (.unit :: ob ++ [.unit]) ++ ok) ∧
+      oh.length = h.length ∧ ob.length = b.length ∧ ok.length = k.length ∧
+      s'.cache = s.cache := by
+  obtain ⟨s, hs, hc⟩ := run_refines (h ++ b ++ k)
+  obtain ⟨s', hs', hc'⟩ := run_refines (h ++ (.snapshot :: b ++ [.clearSnapshot]) ++ k)
+  rw [naive_run_append, naive_run_append] at hs hc
+  rw [naive_run_append, naive_run_append] at hs' hc'
+  rw [naive_commit_state _ b hb] at hs' hc'
+  have eo : ∀ n : Naive α, (Naive.run n (.snapshot :: b ++ [.clearSnapshot])).2
+      = .unit :: (Naive.run n b).2 ++ [.unit] := by
+    intro n
+    have e : (.snapshot :: b ++ [.clearSnapshot] : List (Op α)) = (.snapshot :: b) ++ [.clearSnapshot] := rfl
+    rw [e, naive_run_append]
+    simp only [Naive.run, Naive.step]
+    rw [naive_balanced_out b hb n.cur (n.cur :: n.saved) n.saved]
+  rw [eo] at hs'
+  exact ⟨s, s', _, _, _, hs, hs', naive_run_out_length _ _, naive_run_out_length _ _,
+    naive_run_out_length _ _, by rw [hc, hc']⟩
+
 end PestModel.C11
